@@ -16,6 +16,8 @@ def all_contracts():
 def tasks_for(pid, tier, seed):
     out = []
     reg = all_contracts()
+    if pid == 'C06':
+        out.append(('vt.lemmas.lown', 'run', {'backend': 'E1', 'pid': pid, 'lemma': 'L-own'}))
     for name, c in sorted(reg.items()):
         if pid not in c.props or not c.verify:
             continue
